@@ -21,7 +21,8 @@ MOD = "mc.props.C15"
 
 ACTIONS = [
     "full", "mesh_only", "part_only", "sink_only", "value_pred", "box", "level_le_2", "cpu_list_2",
-    "sortby_part", "sortby_sink", "sortby_mesh", "mesh_vars", "part_vars", "box_far_corner", "groups_off_mesh",
+    "sortby_part", "sortby_sink", "sortby_mesh", "refused_sortby_with_level_cap", "refused_cpu_list_with_box", "mesh_vars", "part_vars", "box_far_corner",
+    "groups_off_mesh", "refused_predicate_raises",
 ]
 
 
@@ -85,6 +86,17 @@ def action_kwargs(name, out):
         return {"sortby": {"sink": "level"}}
     if name == "sortby_mesh":
         return {"sortby": {"mesh": "density"}}
+    # calls that are rightly refused (after some of the call's settings have been taken into account)
+    if name == "refused_sortby_with_level_cap":
+        return {"select": {"mesh": {"level": lambda l: l <= 2}}, "sortby": {"mesh": "no_such_variable"}}
+    if name == "refused_cpu_list_with_box":
+        q = 0.26 * box
+        return {"select": {"mesh": {"position_x": lambda x: x < q * cm, "level": lambda l: l <= 2}, "part": False}, "cpu_list": [7]}
+    if name == "refused_predicate_raises":
+        def boom(d):
+            raise ZeroDivisionError("predicate failed")
+
+        return {"select": {"mesh": {"level": lambda l: l <= 2, "density": boom}}}
     if name == "mesh_vars":
         return {"select": {"mesh": ["density", "position_x", "position_y", "position_z", "level"]}}
     if name == "part_vars":
@@ -117,7 +129,11 @@ class Spec:
         key = (os.getpid(), self.variant, action)
         if key not in Spec._fresh:
             ds = _load.new_dataset(self.dir, self.out.nout)
-            text = _load.call_load(ds, **action_kwargs(action, self.out))
+            try:
+                text = _load.call_load(ds, **action_kwargs(action, self.out))
+            except Exception as e:
+                Spec._fresh[key] = {"raised": type(e).__name__}
+                return Spec._fresh[key]
             Spec._fresh[key] = {
                 "groups": C13.snapshot(ds),
                 "ncells": int(ds.meta["ncells"]),
@@ -162,6 +178,17 @@ class Spec:
         ds = impl.ds
         problems = []
         want = self.fresh_result(op)
+        if "raised" in want:
+            # a call that a fresh dataset refuses: it must be refused here too; what the groups hold afterwards is not
+            # specified, so every group is unknown until a later call produces it again
+            try:
+                _load.call_load(ds, **action_kwargs(op, self.out))
+                problems.append(("C15:call-refused-on-a-fresh-dataset-accepted-after-history", {"action": op, "fresh": want["raised"]}))
+            except Exception:
+                pass
+            model["unknown"] = sorted(set(model["groups"]) | set(C13.snapshot(ds)))
+            model["groups"] = {}
+            return ["refused"], problems
         try:
             text = _load.call_load(ds, **action_kwargs(op, self.out))
         except Exception as e:
@@ -172,7 +199,11 @@ class Spec:
         for g in produced:
             model["groups"][g] = want["groups"][g]
         got = C13.snapshot(ds)
+        unknown = set(model.get("unknown", [])) - produced
+        model["unknown"] = sorted(unknown)
         for g in sorted(set(got) | set(model["groups"])):
+            if g in unknown:
+                continue
             if g not in got:
                 problems.append((f"C15:group-lost:{g}", {"after": op}))
             elif g not in model["groups"]:
@@ -211,7 +242,7 @@ def make_spec(name, params):
 
 
 def run(ctx):
-    acts = ACTIONS if ctx.thorough else ACTIONS[:13]
+    acts = ACTIONS if ctx.thorough else ACTIONS[:15]
     depth = 4 if ctx.thorough else 3
     und = 3 if ctx.thorough else 2
     covs, accs = [], []
